@@ -112,7 +112,7 @@ func (r *scriptReader) Read(p []byte) (int, error) {
 }
 
 type scriptWriter struct {
-	mode int // 0 ok, 1 short write, 2 error, 3 over-report, 4 short with error
+	mode int // 0 ok, 1 short write, 2 error, 3 over-report, 4 short with error, 5 negative count, 6 negative count with error
 	got  []byte
 }
 
@@ -131,6 +131,10 @@ func (w *scriptWriter) Write(p []byte) (int, error) {
 		n := len(p) / 3
 		w.got = append(w.got, p[:n]...)
 		return n, errScript
+	case 5: // a broken writer that reports a negative count
+		return -2, nil
+	case 6: // ... together with an error
+		return -1, errScript
 	}
 	w.got = append(w.got, p...)
 	return len(p), nil
@@ -339,15 +343,26 @@ func c19diff(c *Ctx) {
 				for i := r.Intn(5); i >= 0; i-- {
 					steps = append(steps, gen.Pick(r, []int{1, 5, 100, 511, 512, 513, 2000, 0, 0, -1, -2, -3, -4, -4, -5, -6, -7, -8, -9, -10, -11, -12}))
 				}
+				stall := 0
+				if r.P(10) {
+					// a reader that answers (0, nil) a hundred times or more before it delivers: a buffer keeps reading
+					k := gen.Pick(r, []int{99, 100, 101, 250, 1000})
+					stall = k
+					steps = append(make([]int, k), append([]int{16}, steps...)...)
+					c.R.Add("readers_that_stall_100_times_or_more", 1)
+				}
 				fill := byte(r.Intn(200))
 				name = fmt.Sprintf("ReadFrom(reader script %v)", steps)
+				if stall > 0 {
+					name = fmt.Sprintf("ReadFrom(reader script: %d (0,nil) answers, then %v)", stall, steps[stall:])
+				}
 				mkf := func() func(b bufAPI) (string, error) {
 					rd := &scriptReader{steps: steps, fill: fill}
 					return func(b bufAPI) (string, error) { n, err := b.ReadFrom(rd); return fmt.Sprint(n), err }
 				}
 				fa, fb = mkf(), mkf()
 			case 13:
-				mode := r.Intn(5)
+				mode := r.Intn(7)
 				name = fmt.Sprintf("WriteTo(writer mode %d)", mode)
 				mkf := func() func(b bufAPI) (string, error) {
 					wr := &scriptWriter{mode: mode}
@@ -408,9 +423,17 @@ func c19diff(c *Ctx) {
 				fail("diverges", opn+"/"+feat, fmt.Sprintf("step %d %s: bytes.Buffer -> %+v ; PrintCtx -> %+v", k, name, ra, rb))
 				return
 			}
-			if pb.Len() != pc.Len() || pb.String() != pc.String() {
-				fail("state", opn, fmt.Sprintf("after step %d %s: bytes.Buffer holds %d bytes, PrintCtx %d; contents equal: %v", k, name, pb.Len(), pc.Len(), pb.String() == pc.String()))
+			// the state both are left in (a broken writer may leave a buffer in a state in which even String() panics:
+			// then both panic alike)
+			sa := runOp(func() (string, error) { return fmt.Sprintf("%d %s", pb.Len(), pb.String()), nil })
+			sb := runOp(func() (string, error) { return fmt.Sprintf("%d %s", pc.Len(), pc.String()), nil })
+			if sa != sb {
+				fail("state", opn, fmt.Sprintf("after step %d %s: bytes.Buffer is left as %+v, PrintCtx as %+v", k, name, clip(fmt.Sprintf("%+v", sa), 300), clip(fmt.Sprintf("%+v", sb), 300)))
 				return
+			}
+			if sa.panic != "" {
+				c.R.Add("cases_ended_in_a_state_both_buffers_panic_in", 1)
+				break
 			}
 			for _, e := range retained {
 				now := e.s
